@@ -1,0 +1,22 @@
+//go:build verif
+
+package litefs
+
+import "sync/atomic"
+
+var verifPointFn atomic.Value // func(name string, db *DB, arg uint32)
+
+// VerifSetPoint installs a callback invoked at the entry of the internal
+// page-write and file-truncate helpers (verification builds only).
+func VerifSetPoint(fn func(name string, db *DB, arg uint32)) {
+	if fn == nil {
+		fn = func(string, *DB, uint32) {}
+	}
+	verifPointFn.Store(fn)
+}
+
+func verifPoint(name string, db *DB, arg uint32) {
+	if fn, ok := verifPointFn.Load().(func(string, *DB, uint32)); ok && fn != nil {
+		fn(name, db, arg)
+	}
+}
